@@ -260,7 +260,19 @@ func (c *Check) AddCounts(states, transitions, validated, evals, nontrivial int6
 func (c *Check) NotExhaustive() { c.exhaustive = false }
 
 // Failed reports whether something went wrong so far.
-func (c *Check) Failed() bool { return len(c.violations) > 0 || len(c.errors) > 0 }
+// Failed reports whether something other than a listed known finding was seen so
+// far (checks use it to stop early; a known finding must not end a check).
+func (c *Check) Failed() bool {
+	if len(c.errors) > 0 {
+		return true
+	}
+	for _, v := range c.violations {
+		if v.Key == "" || !explore.KnownKeys[v.Key] {
+			return true
+		}
+	}
+	return false
+}
 
 func firstLine(s string) string {
 	if i := strings.IndexByte(s, '\n'); i >= 0 {
